@@ -326,9 +326,11 @@ def run_post(case):
         funcs.append((lambda A, mi, off: (lambda th: sc * (float((th - mi).dot(A).dot(th - mi)) + off)))(A, mi, off))
     ctx = 'case=%r' % (case,)
     with must_not_raise(P, 'RomcPosterior; ' + ctx):
+        # all fourteen arguments positionally, exactly as the one caller inside elfi (ROMC._define_posterior) hands them over:
+        # (..., prior, left_lim, right_lim, eps_filter, eps_region, eps_cutoff, parallelize)
         post = RomcPosterior(regions, funcs, funcs, funcs, funcs, list(range(case['nreg'])), case['surrogate_used'], prior,
-                             np.full(d, -case.get('lims', 4.0)), np.full(d, case.get('lims', 4.0)), eps_filter=10.0 * sc, eps_region=5.0 * sc,
-                             eps_cutoff=case['cutoffs'][0] * sc)
+                             np.full(d, -case.get('lims', 4.0)), np.full(d, case.get('lims', 4.0)), 10.0 * sc, 5.0 * sc,
+                             case['cutoffs'][0] * sc, False)
     pts = np.vstack([rs.uniform(-4.5, 4.5, size=(case['npts'], d))] + [params[r][4][None, :] + rs.randn(2, d) * 0.5 for r in range(case['nreg'])])
 
     def inside(r, x):
